@@ -366,3 +366,94 @@ def key_covers_parameters(target, injective=("tuple", "map", "frozenset", "hash_
         detail = "return value is not a tuple display"
     out.append((f"every parameter {params} occurs in the returned key under injective constructors", ok, detail))
     return out
+
+
+def single_leg_rule(cls_target, rule="compute_contracted", sink="contract_nodes", param="new_legs"):
+    """C18: inside the class, the legs handed to `sink` (third positional argument or keyword `param`) always come
+    from the one proved leg rule `rule`: the argument is a local name every binding of which in that method is a
+    call of `rule`, or the unpacking of an entry of a local container whose stores put such a name at the same
+    tuple position; and `sink` itself binds `param` only from `rule`.  A sufficient condition on the AST."""
+    mod, _c, cls = resolve(cls_target)
+    tree = fn_ast(cls)
+    out, ncalls, bad = [], 0, []
+
+    def is_rule_call(v):
+        return isinstance(v, ast.Call) and isinstance(v.func, ast.Name) and v.func.id == rule
+
+    def bindings(fn, name):
+        """(kind, payload) for every binding of `name` in fn: ('value', expr) | ('unpack', (pos, expr)) | ('other', node)"""
+        res = []
+        for n in ast.walk(fn):
+            if isinstance(n, ast.Assign):
+                for t in n.targets:
+                    if isinstance(t, ast.Name) and t.id == name:
+                        res.append(("value", n.value))
+                    elif isinstance(t, (ast.Tuple, ast.List)):
+                        for p, e in enumerate(t.elts):
+                            if isinstance(e, ast.Name) and e.id == name:
+                                res.append(("unpack", (p, n.value)))
+                            elif any(isinstance(x, ast.Name) and x.id == name for x in ast.walk(e)):
+                                res.append(("other", n))
+            elif isinstance(n, (ast.AugAssign, ast.AnnAssign, ast.NamedExpr)) and any(
+                    isinstance(x, ast.Name) and x.id == name and isinstance(x.ctx, ast.Store) for x in ast.walk(n)):
+                res.append(("other", n))
+            elif isinstance(n, (ast.For, ast.comprehension)) and any(isinstance(x, ast.Name) and x.id == name for x in ast.walk(n.target)):
+                res.append(("other", n))
+            elif isinstance(n, ast.arg) and n.arg == name:
+                res.append(("param", n))
+        return res
+
+    def derived(fn, name, visiting=frozenset(), allow_param=False):
+        # greatest fixed point: a name met again while it is being examined is accepted - values enter such a
+        # cycle only through a binding that is checked (a call of the rule), everything else is rejected below
+        if name in visiting:
+            return True
+        visiting = visiting | {name}
+        bs = bindings(fn, name)
+        if not bs:
+            return False
+        for kind, pl in bs:
+            if kind == "param" and allow_param:
+                continue
+            if kind == "value" and is_rule_call(pl):
+                continue
+            if kind == "unpack":
+                pos, src = pl
+                cont = None
+                if isinstance(src, ast.Call) and isinstance(src.func, ast.Attribute) and src.func.attr == "pop" and isinstance(src.func.value, ast.Name):
+                    cont = src.func.value.id
+                elif isinstance(src, ast.Subscript) and isinstance(src.value, ast.Name):
+                    cont = src.value.id
+                if cont is not None:
+                    stores = [n for n in ast.walk(fn) if isinstance(n, ast.Assign) and any(
+                        isinstance(t, ast.Subscript) and isinstance(t.value, ast.Name) and t.value.id == cont for t in n.targets)]
+                    other_writes = [n for n in ast.walk(fn) if isinstance(n, ast.Call) and isinstance(n.func, ast.Attribute)
+                                    and isinstance(n.func.value, ast.Name) and n.func.value.id == cont
+                                    and n.func.attr in ("update", "setdefault", "append", "extend", "insert", "__setitem__")]
+                    if stores and not other_writes and all(
+                            isinstance(s.value, ast.Tuple) and len(s.value.elts) > pos and isinstance(s.value.elts[pos], ast.Name)
+                            and derived(fn, s.value.elts[pos].id, visiting) for s in stores):
+                        continue
+            return False
+        return True
+
+    for fn in [n for n in tree.body if isinstance(n, ast.FunctionDef)]:
+        for n in ast.walk(fn):
+            if isinstance(n, ast.Call) and isinstance(n.func, ast.Attribute) and n.func.attr == sink:
+                arg = n.args[2] if len(n.args) >= 3 else next((k.value for k in n.keywords if k.arg == param), None)
+                if any(isinstance(a, ast.Starred) for a in n.args) and len(n.args) == 1:
+                    # f(*nodes): the legs parameter is only reached if three values are unpacked; the callee's
+                    # own obligations (two live ids) cover the arity, legs stay None
+                    arg = None
+                if any(k.arg is None for k in n.keywords):
+                    bad.append(f"{fn.name} line {n.lineno}: **kwargs into {sink}")
+                    continue
+                ncalls += 1
+                if arg is None or (isinstance(arg, ast.Constant) and arg.value is None):
+                    continue
+                if not (isinstance(arg, ast.Name) and derived(fn, arg.id)):
+                    bad.append(f"{fn.name} line {n.lineno}: {ast.unparse(arg)} is not taken from {rule}()")
+        if fn.name == sink and not derived(fn, param, allow_param=True):
+            bad.append(f"{sink} binds {param} from something else than {rule}()")
+    out.append((f"every call of {sink} takes its legs from {rule}() ({ncalls} call sites)", not bad and ncalls > 0, "; ".join(bad)))
+    return out
